@@ -274,6 +274,17 @@ def run_c19(ctx):
     })
     ctx.assumptions += ["built without the pretty-print feature; ANSI escapes are stripped anyway"]
     dynmock_stage(ctx, 200_000 if ctx.tier == "quick" else 4_000_000, gate=False)
+    # messages of calls that overlap in time: under controlled schedules every mock-induced panic message must name
+    # the method and pattern of a sequential explanation of the history
+    from . import engine_c
+    b = engine_c.C10_BUDGET[ctx.tier]
+    ctl, v = engine_c.run_sched(ctx, "c10", b["controlled"] // 2)
+    engine_c.report(ctx, v, "C19", "messages under controlled schedules")
+    ctx.require(any(k.startswith("call_mockpanic_") for k in ctl["stats"]),
+                "no mock-induced panic under a controlled schedule")
+    ctx.coverage["concurrent_messages_stage"] = {"executions": ctl["executions"],
+                                                 "distinct_schedules": ctl["distinct_schedules"]}
+    ctx.coverage["evaluations"] += ctl["executions"]
 
 
 RET_BUDGET = {"quick": 360, "thorough": 6000}
